@@ -20,6 +20,11 @@ from simphot.kernel import (Held, Inapplicable, Machine, Raised, Violation,
 RTOL = 1e-9
 
 
+def _fv(v):
+    """Plans are JSON: non-finite fill values are spelled as strings."""
+    return float(v) if isinstance(v, str) else v
+
+
 class _Actor:
     def __init__(self, model, params, attrs, share):
         self.model = model
@@ -57,7 +62,8 @@ class PSFModelMachine(Machine):
     def make_cfg(self, rng, avoid):
         ovs = rng.pick([1, 2, 3, 4, [2, 3], [1, 4]])
         cfg = {'oversampling': ovs,
-               'fill_value': rng.pick([0.0, 0.0, None, -1.0, 0, -1]),
+               'fill_value': rng.pick([0.0, 0.0, None, -1.0, 0, -1, 'nan',
+                                     'nan', 'inf']),
                'shape': [rng.pick([7, 8, 9, 12, 13]),
                          rng.pick([7, 8, 9, 12, 13])]}
         if self.variant == 'image':
@@ -124,7 +130,7 @@ class PSFModelMachine(Machine):
             return ImagePSF(dec(sc['data']).copy(), flux=params['flux'],
                             x_0=params['x_0'], y_0=params['y_0'],
                             origin=attrs.get('origin'), oversampling=ovs,
-                            fill_value=attrs['fill_value'])
+                            fill_value=_fv(attrs['fill_value']))
         from astropy.nddata import NDData
         from photutils.psf import GriddedPSFModel
         meta = {'grid_xypos': [tuple(p) for p in sc['grid_xypos']],
@@ -132,7 +138,7 @@ class PSFModelMachine(Machine):
         nd = NDData(dec(sc['data']).copy(), meta=meta)
         return GriddedPSFModel(nd, flux=params['flux'], x_0=params['x_0'],
                                y_0=params['y_0'],
-                               fill_value=attrs['fill_value'])
+                               fill_value=_fv(attrs['fill_value']))
 
     def start(self, plan, stats, trace):
         from scipy.interpolate import RectBivariateSpline
@@ -186,7 +192,7 @@ class PSFModelMachine(Machine):
                 names += ['origin', 'oversampling']
             nm = rng.pick(names)
             if nm == 'fill_value':
-                val = rng.pick([0.0, None, -1.0, 2.5, 0, -999])
+                val = rng.pick([0.0, None, -1.0, 2.5, 0, -999, 'nan', '-inf'])
             elif nm == 'oversampling':
                 val = rng.pick([1, 2, 3, [2, 3], 4])
             else:
@@ -227,6 +233,10 @@ class PSFModelMachine(Machine):
             # looking at the grid of ePSFs is a read
             return {'op': 'plot_grid', 'actor': k,
                     'deltas': rng.chance(0.6), 'peak_norm': rng.chance(0.4)}
+        if r < 0.9925:
+            # printing a model is a read
+            return {'op': 'describe', 'actor': k,
+                    'how': rng.pick(['str', 'str', 'repr'])}
         if r < 0.995:
             # forced photometry: a parameter is held fixed (no effect on
             # what the model evaluates to, nor on its relatives)
@@ -363,7 +373,7 @@ class PSFModelMachine(Machine):
                     'L' if x0 < xg[0] else 'R' if x0 > xg[-1] else '',
                     'B' if y0 < yg[0] else 'T' if y0 > yg[-1] else '')
         val = np.asarray(flux * val, dtype=float)
-        fv = a.a['fill_value']
+        fv = _fv(a.a['fill_value'])
         if fv is not None:
             invalid = ((xi < 0) | (xi > st.nx - 1) | (yi < 0)
                        | (yi > st.ny - 1))
@@ -391,6 +401,12 @@ class PSFModelMachine(Machine):
             plt.close('all')
             st.stats.probe('grid_plotted' if not isinstance(out, Raised)
                            else 'grid_plot_raised')
+            return
+        if kind == 'describe':
+            out = call(str if op['how'] == 'str' else repr, m)
+            if isinstance(out, Raised):
+                raise Violation('raises', op['how'], repr(out))
+            st.stats.probe('model_printed')
             return
         if kind == 'fix':
             out = call(lambda: setattr(getattr(m, op['name']), 'fixed',
@@ -441,7 +457,7 @@ class PSFModelMachine(Machine):
                 out = call(setattr, m, 'origin', v)
                 a.a['origin'] = v
             else:
-                out = call(setattr, m, 'fill_value', v)
+                out = call(setattr, m, 'fill_value', _fv(v))
                 a.a['fill_value'] = v
             if isinstance(out, Raised):
                 raise Violation('raises', 'set_' + nm, repr(out))
